@@ -85,6 +85,10 @@ pub struct SimResolver {
     /// a nested evaluation started by the resolver is running
     pub nested: Cell<bool>,
     pub nested_calls: Cell<u64>,
+    /// the store renders the display name of every ref afresh each time it hands out a record
+    /// (`@r1 "rec 1 #17"`): the identity of a ref is its id, whatever its display name says
+    pub volatile_dis: bool,
+    pub handed_out: Cell<u64>,
 }
 
 
@@ -271,7 +275,29 @@ impl SimResolver {
                 }
             }
         }
-        self.store.borrow().get(&r.value).cloned()
+        let rec = self.store.borrow().get(&r.value).cloned();
+        if !self.volatile_dis {
+            return rec;
+        }
+        let n = self.handed_out.get() + 1;
+        self.handed_out.set(n);
+        let fresh = |v: &Value| -> Value {
+            match v {
+                Value::Ref(r) => Value::make_ref_with_dis(&r.value, &format!("{} #{n}", r.value)),
+                other => other.clone(),
+            }
+        };
+        rec.map(|d| {
+            let mut out = Dict::new();
+            for (k, v) in d.iter() {
+                let v2 = match v {
+                    Value::List(l) => Value::make_list(l.iter().map(&fresh).collect()),
+                    other => fresh(other),
+                };
+                out.insert(k.clone(), v2);
+            }
+            out
+        })
     }
 }
 
@@ -493,6 +519,8 @@ pub fn run_case(case: &Case, ns: &'static Namespace<'static>) -> Outcome {
                 reentries: Cell::new(0),
                 nested: Cell::new(false),
                 nested_calls: Cell::new(0),
+                volatile_dis: srng.fork("volatile-dis").chance(1, 3),
+                handed_out: Cell::new(0),
             };
             let subjects: Vec<Dict> = if case.extra.contains_key("deep") {
                 vec![deep_subject()]
@@ -541,6 +569,7 @@ pub fn run_case(case: &Case, ns: &'static Namespace<'static>) -> Outcome {
             out.steps = resolver.lookups.get();
             out.probe("fault:store-mutation-during-eval", resolver.mutations.get());
             out.probe("fault:resolver-re-enters-the-namespace", resolver.reentries.get());
+            out.probe("fault:record-handed-out-with-fresh-display-names", resolver.handed_out.get());
             out.probe("reach:resolver-callbacks", resolver.lookups.get());
             out.probe("reach:term-evaluations", eval_ticks);
             if case.extra.contains_key("deep") {
